@@ -89,6 +89,7 @@ class InverseZTransformer(UnilateralInverseTransformer):
         # In general, 1 / (z**m * (z - a)) becomes a**n * u[n - m]
 
         if (len(expr.args) == 2 and expr.args[1].is_Pow and
+            expr.args[1].args[1] == -1 and
             expr.args[1].args[0].is_Add and
             expr.args[1].args[0].args[0] == -1 and
                 expr.args[1].args[0].args[1] == z):
